@@ -33,6 +33,14 @@ Proof.
   - apply IHForall2. intros a b Hb. apply HRR. right. exact Hb.
 Qed.
 
+Lemma Forall2_impl_in_l {A B} (R R' : A -> B -> Prop) l l' :
+  Forall2 R l l' -> (forall x y, In x l -> R x y -> R' x y) -> Forall2 R' l l'.
+Proof.
+  induction 1; intros HRR; constructor.
+  - apply HRR; [left; reflexivity|assumption].
+  - apply IHForall2. intros a b Hb. apply HRR. right. exact Hb.
+Qed.
+
 Lemma NoDup_map_inj {A B} (f : A -> B) l : (forall a b, f a = f b -> a = b) -> NoDup l -> NoDup (map f l).
 Proof.
   intros Hinj. induction 1; cbn [map]; constructor; auto.
@@ -807,5 +815,506 @@ Section Steps.
       + intros _. apply upd_same.
     - cbn [app]. nb.
       apply (Hfin ρ1 (DV VUnit) HI0). congruence.
+  Qed.
+
+  (* ------------------------------------------------------------------------------------------ *)
+  (* STAGE 3: the try kinds (sync): per-step failure check, transposer                          *)
+  (* ------------------------------------------------------------------------------------------ *)
+
+  Lemma glue_iter vs : glue_d "iter" (DV (VList vs)) [] = Ret (DV (VList vs)). Proof. reflexivity. Qed.
+  Lemma glue_position vs f : glue_d "position" (DV (VList vs)) [DF f] = let! r := position f vs 0 in Ret (DV r).
+  Proof. reflexivity. Qed.
+  Lemma glue_as_ref_d d : glue_d "as_ref" d [] = match d with DV _ => Ret d | _ => Panic P_ILLTYPED end.
+  Proof. destruct d; reflexivity. Qed.
+
+  (* `x.as_ref().map(|_| true).unwrap_or(false)` classifies the value of x *)
+  Lemma is_succ_sem ρ x d : ρ x = Some d ->
+    D (is_succ x) ρ = let! b := classify d in Ret (DV (VBool b)).
+  Proof.
+    intros Hx. unfold is_succ.
+    rewrite !den_RGlue, den_RVar, Hx. nb. rewrite !dens_nil. nb. rewrite glue_as_ref_d.
+    rewrite !dens_cons, den_RClosureIgn, den_RBool, !dens_nil. nb.
+    destruct d as [v| | | | | |]; nb; try reflexivity.
+    rewrite glue_map.
+    destruct v; cbn [std_map classify]; nb; try reflexivity;
+      rewrite ?den_RBool; nb; cbn [to_val]; nb; rewrite glue_unwrap_or; reflexivity.
+  Qed.
+
+  Fixpoint find_false (bs : list bool) : option nat :=
+    match bs with
+    | [] => None
+    | false :: _ => Some 0
+    | true :: r => match find_false r with Some m => Some (S m) | None => None end
+    end.
+
+  Lemma position_not ρ : forall (bs : list bool) (i : Z),
+    position (fun vs => match vs with
+                        | [v] => let! d := D (RNot (RVar n_v)) (upd ρ n_v (DV v)) in to_val d
+                        | _ => Panic P_ILLTYPED end) (map VBool bs) i
+    = Ret (match find_false bs with Some m => VSome (VInt (i + Z.of_nat m)) | None => VNone end).
+  Proof.
+    induction bs as [|b r IH]; intros i; cbn [map position find_false]; [reflexivity|].
+    rewrite den_RNot, den_RVar, upd_same. nb. cbn [to_val]. nb.
+    destruct b; cbn [negb].
+    - rewrite IH. destruct (find_false r) as [m|]; [|reflexivity].
+      f_equal. f_equal. f_equal. lia.
+    - f_equal. f_equal. f_equal. lia.
+  Qed.
+
+  Lemma checks_sem ρ : forall xs ds, Forall2 (fun x d => ρ x = Some d) xs ds ->
+    dens ρ (map is_succ xs) = let! oks := mapM classify ds in Ret (map (fun b => DV (VBool b)) oks).
+  Proof.
+    induction 1 as [|x d xs ds Hx Hr IH]; cbn [map mapM]; [reflexivity|].
+    rewrite dens_cons, (is_succ_sem ρ x d Hx), IH. nb. apply bind_ext. intros b. nb.
+    apply bind_ext. intros bs. nb. reflexivity.
+  Qed.
+
+  Lemma all_vals_bools bs : all_vals (map (fun b => DV (VBool b)) bs) = Some (map VBool bs).
+  Proof. induction bs as [|b r IH]; cbn [map all_vals]; [reflexivity|]. rewrite IH. reflexivity. Qed.
+
+  Lemma first_false_find : forall (oks : list bool) (ds : list dval), List.length oks = List.length ds ->
+    first_false oks ds = match find_false oks with Some m => nth_error ds m | None => None end.
+  Proof.
+    induction oks as [|b r IH]; intros ds Hl; destruct ds as [|d ds]; try discriminate; cbn [first_false find_false].
+    - reflexivity.
+    - destruct b; [|reflexivity]. rewrite IH by (cbn in Hl; lia).
+      destruct (find_false r); reflexivity.
+  Qed.
+
+  Lemma find_false_lt : forall (oks : list bool) m, find_false oks = Some m -> m < List.length oks /\ nth_error oks m = Some false.
+  Proof.
+    induction oks as [|b r IH]; intros m H; cbn [find_false] in H; [discriminate|].
+    destruct b.
+    - destruct (find_false r) as [m'|] eqn:E; [|discriminate]. inversion H; subst.
+      destruct (IH m' eq_refl) as [H1 H2]. split; [cbn; lia|exact H2].
+    - inversion H; subst. split; [cbn; lia|reflexivity].
+  Qed.
+
+  (* arms numbered by the rank among the active branches *)
+  Lemma match_arms_rank ρ (A : nat * string -> rexpr) : forall (act : list (nat * string)) o m x,
+    nth_error act m = Some x ->
+    match_arms unames msem dotsem callsem awaitsem ρ (Z.of_nat (o + m))
+      (map (fun nv => (fst nv, A (snd nv))) (enum_from o act)) = D (A x) ρ.
+  Proof.
+    induction act as [|a r IH]; intros o m x Hm; [destruct m; discriminate|].
+    cbn [enum_from map fst snd]. rewrite match_arms_cons.
+    destruct m as [|m]; cbn [nth_error] in Hm.
+    - inversion Hm; subst. rewrite Nat.add_0_r, Z.eqb_refl. reflexivity.
+    - destruct (Z.eqb_spec (Z.of_nat o) (Z.of_nat (o + S m))) as [E|_]; [lia|].
+      replace (o + S m) with (S o + m) by lia. apply IH. exact Hm.
+  Qed.
+
+  Lemma classify_false_map d (f : list val -> comp val) :
+    (exists b, classify d = Ret b /\ b = false) -> std_map d f = Ret d.
+  Proof.
+    intros (b & Hc & ->). destruct d as [[]| | | | | |]; cbn [classify] in Hc; try discriminate; reflexivity.
+  Qed.
+
+  Lemma mapM_classify_nth : forall ds, leaves (fun oks : list bool => List.length oks = List.length ds /\
+      forall m, nth_error oks m = Some false -> exists d, nth_error ds m = Some d /\ classify d = Ret false)
+    (mapM classify ds).
+  Proof.
+    induction ds as [|d ds IH]; cbn [mapM].
+    - constructor. split; [reflexivity|]. intros [|m]; discriminate.
+    - assert (Hc : leaves (fun b => classify d = Ret b) (classify d)).
+      { destruct d as [[]| | | | | |]; cbn [classify]; constructor; reflexivity. }
+      eapply leaves_bind; [exact Hc|]. intros b Hb.
+      eapply leaves_bind; [apply IH|]. intros bs [Hl Hn]. constructor. split; [cbn; lia|].
+      intros [|m] Hm; cbn [nth_error] in *.
+      + inversion Hm; subst. eauto.
+      + apply Hn. exact Hm.
+  Qed.
+
+  (* the per-step failure check of try kinds *)
+  Lemma fail_check_sem ρ (acts : list nat) (ds : list dval) (els : rexpr) :
+    Forall2 (fun b d => ρ (bname b) = Some d) acts ds ->
+    D (RIfLetSome n_fail_index
+         (RGlue (RGlue (RArray (map (fun iv : nat * string => is_succ (snd iv)) (map (fun b => (b, bname b)) acts))) "iter" [])
+                "position" [RClosure n_v (RNot (RVar n_v))])
+         (RBlock [] (RMatchIdx (RVar n_fail_index)
+                       (map (fun nv : nat * (nat * string) =>
+                               (fst nv, RGlue (RVar (snd (snd nv))) "map" [RClosureIgn RUnreachable]))
+                            (enum_from 0 (map (fun b => (b, bname b)) acts)))))
+         els) ρ
+    = let! oks := mapM classify ds in
+      match first_false oks ds with
+      | Some d => std_map d (fun _ => Panic P_UNREACHABLE)
+      | None => D els ρ
+      end.
+  Proof.
+    intros HF.
+    rewrite den_RIfLetSome, !den_RGlue, den_RArray. nb.
+    rewrite !map_map. cbn [snd].
+    assert (HF' : Forall2 (fun x d => ρ x = Some d) (map bname acts) ds).
+    { clear -HF. induction HF; cbn [map]; constructor; auto. }
+    rewrite <- (map_map bname is_succ), (checks_sem ρ _ _ HF'). nb.
+    eapply bind_ext_leaves; [apply (mapM_classify_nth ds)|]. intros oks [Hlen Hnth]. nb.
+    rewrite all_vals_bools. nb. rewrite dens_nil. nb. rewrite glue_iter. nb.
+    rewrite dens_cons, den_RClosure, dens_nil. nb. rewrite glue_position, position_not. nb.
+    rewrite (first_false_find oks ds Hlen).
+    destruct (find_false oks) as [m|] eqn:Ef; [|reflexivity].
+    destruct (find_false_lt oks m Ef) as [Hm Hf].
+    destruct (Hnth m Hf) as (d & Hd & Hc). rewrite Hd.
+    rewrite den_RBlock. cbn [execs]. nb. rewrite den_RMatchIdx, den_RVar, upd_same. nb.
+    assert (Hb : exists b, nth_error acts m = Some b /\ ρ (bname b) = Some d).
+    { clear -HF Hd. revert m Hd. induction HF as [|b0 d0 acts ds H0 Hr IH]; intros m Hd; destruct m; cbn [nth_error] in *; try discriminate.
+      - inversion Hd; subst. eauto.
+      - eauto. }
+    destruct Hb as (b & Hb & Hρ).
+    replace (Z.of_nat 0 + Z.of_nat m)%Z with (Z.of_nat (0 + m)) by lia.
+    rewrite (match_arms_rank _ (fun x : nat * string => RGlue (RVar (snd x)) "map" [RClosureIgn RUnreachable])
+                             (map (fun b => (b, bname b)) acts) 0 m (b, bname b)).
+    2:{ rewrite nth_error_map, Hb. reflexivity. }
+    cbn [snd]. rewrite den_RGlue, den_RVar.
+    rewrite upd_other by (rewrite n_fail_index_g; apply bname_not_gname; discriminate).
+    rewrite Hρ. nb. rewrite dens_cons, den_RClosureIgn, dens_nil. nb. rewrite glue_map.
+    rewrite !classify_false_map; eauto.
+  Qed.
+
+  (* ---- the transposer ---- *)
+  Lemma transposer_cons2 x y l ret :
+    transposer (x :: y :: l) ret =
+    match transposer (y :: l) ret with
+    | Some acc => Some (RGlue (RVar x) "and_then" [RClosure x acc])
+    | None => None
+    end.
+  Proof. reflexivity. Qed.
+
+  Lemma transposer_sem ret :
+    (forall ρ st, Inv ρ st -> D ret ρ = final_tuple sp st) ->
+    forall bs t, transposer (map bname bs) ret = Some t -> (forall b, In b bs -> b < n) ->
+    forall ρ st, Inv ρ st -> D t ρ = transpose awaitsem sp bs st.
+  Proof.
+    intros Hret. induction bs as [|b r IH]; intros t Ht Hlt ρ st HI; [discriminate Ht|].
+    assert (Hb : b < n) by (apply Hlt; left; reflexivity).
+    destruct r as [|b2 r'].
+    - cbn [map transposer] in Ht. inversion Ht; subst t. cbn [transpose].
+      rewrite den_RGlue, (den_bname ρ st b HI Hb). apply bind_ext. intros d.
+      rewrite dens_cons, den_RClosure, dens_nil. nb. rewrite glue_map. f_equal.
+      extensionality vs. destruct vs as [|v [|]]; try reflexivity.
+      rewrite Hret with (st := set1 st b (DV v)); [reflexivity|]. apply Inv_set1; auto. exact I.
+    - cbn [map] in Ht, IH. rewrite transposer_cons2 in Ht.
+      destruct (transposer (bname b2 :: map bname r') ret) as [acc|] eqn:Eacc; [|discriminate Ht].
+      inversion Ht; subst t. cbn [transpose].
+      rewrite den_RGlue, (den_bname ρ st b HI Hb). apply bind_ext. intros d.
+      rewrite dens_cons, den_RClosure, dens_nil. nb. rewrite glue_and_then. f_equal.
+      extensionality vs. destruct vs as [|v [|]]; try reflexivity.
+      rewrite (IH acc eq_refl) with (st := set1 st b (DV v)); [reflexivity| |].
+      + intros b' Hb'. apply Hlt. right. exact Hb'.
+      + apply Inv_set1; auto. exact I.
+  Qed.
+
+  (* ---- reading the extracted values back from the environment ---- *)
+  Lemma set_all_other : forall acts ds (st : state) b, ~ In b acts -> nth b (set_all st acts ds) None = nth b st None.
+  Proof.
+    induction acts as [|a r IH]; intros ds st b Hb; [reflexivity|].
+    destruct ds as [|d ds]; [reflexivity|]. cbn [set_all]. rewrite IH.
+    - apply nth_set1_other. intro E. apply Hb. left. congruence.
+    - intro Hin. apply Hb. right. exact Hin.
+  Qed.
+
+  Lemma set_all_nth : forall acts ds (st : state), NoDup acts -> List.length ds = List.length acts ->
+    (forall b, In b acts -> b < List.length st) ->
+    Forall2 (fun b d => nth b (set_all st acts ds) None = Some d) acts ds.
+  Proof.
+    induction acts as [|a r IH]; intros ds st Hnd Hl Hlt; destruct ds as [|d ds]; try discriminate; [constructor|].
+    inversion Hnd; subst. cbn [set_all]. constructor.
+    - rewrite set_all_other by assumption. apply nth_set1_same. apply Hlt. left. reflexivity.
+    - apply IH; auto. intros b Hb. rewrite set1_length. apply Hlt. right. exact Hb.
+  Qed.
+
+  (* ---- join_steps for the try kinds (sync, default transposition) ---- *)
+  Lemma join_steps_try k step next body :
+    is_try cfg = true -> is_async cfg = false -> join_steps j k step next pats vars (n_sr k) = Ok body ->
+    if Nat.ltb k (j_max j - 1) then
+      exists nss ne, next = Some (nss, ne) /\
+        body = (step ++ [extract_step j (n_sr k) pats k],
+                RIfLetSome n_fail_index
+                  (RGlue (RGlue (RArray (map (fun iv : nat * string => is_succ (snd iv))
+                                             (map (fun b => (b, bname b)) (actives sp k)))) "iter" [])
+                         "position" [RClosure n_v (RNot (RVar n_v))])
+                  (RBlock [] (RMatchIdx (RVar n_fail_index)
+                     (map (fun nv : nat * (nat * string) =>
+                             (fst nv, RGlue (RVar (snd (snd nv))) "map" [RClosureIgn RUnreachable]))
+                          (enum_from 0 (map (fun b => (b, bname b)) (actives sp k))))))
+                  (RBlock nss ne))
+    else exists t, transposer vars (tuple_of vars) = Some t /\
+                   body = (step ++ [extract_step j (n_sr k) pats k], t).
+  Proof.
+    intros Ht Ha. unfold join_steps. rewrite (r_cfg_j _ _ _ HR), Ht, (r_transpose _ _ _ HR), Ht, Ha. cbn [andb negb].
+    destruct (Nat.ltb k (j_max j - 1)).
+    - destruct next as [[nss ne]|]; [|discriminate]. intros H; inversion H; subst body. exists nss, ne.
+      split; [reflexivity|]. unfold vars. rewrite enum_filter_pairs, (rel_actives _ _ _ HR). reflexivity.
+    - destruct (transposer vars (tuple_of vars)) as [t|]; [|discriminate]. intros H; inversion H. eauto.
+  Qed.
+
+  Theorem steps_try : step_hyp -> is_try cfg = true -> is_async cfg = false ->
+    forall fuel k ss e, gen_steps j pats vars k fuel = Ok (Some (ss, e)) -> k + fuel = j_max j ->
+    forall ρ st, Inv ρ st -> D (RBlock ss e) ρ = steps msem dotsem callsem awaitsem sp fuel k st.
+  Proof.
+    intros Hstep Ht Ha. induction fuel as [|f IH]; intros k ss e Hg Hk ρ st HI; [discriminate|].
+    cbn [gen_steps] in Hg.
+    destruct (gen_steps j pats vars (S k) f) as [next| |] eqn:En; cbn [rbind] in Hg; try discriminate.
+    destruct (gen_step j k vars (n_sr k)) as [step| |] eqn:Es; cbn [rbind] in Hg; try discriminate.
+    destruct (join_steps j k step next pats vars (n_sr k)) as [body| |] eqn:Ej; cbn [rbind] in Hg; try discriminate.
+    inversion Hg; subst body; clear Hg.
+    apply (join_steps_try _ _ _ _ Ht Ha) in Ej.
+    cbn [steps]. rewrite (r_cfg_sp _ _ _ HR), Ht, Ha. cbn [negb].
+    assert (Hkm : k < j_max j) by lia.
+    destruct f as [|f'].
+    - (* last step: the transposer *)
+      replace (Nat.ltb k (j_max j - 1)) with false in Ej by (symmetry; apply Nat.ltb_ge; lia).
+      destruct Ej as (t & Etr & Eb). inversion Eb; subst ss e.
+      rewrite den_RBlock, execs_app. nb. cbn [Nat.eqb].
+      apply (Hstep k ρ st step HI Hkm Es). intros ρ1 srv HI1 Hsr Hnc.
+      cbn [execs]. nb.
+      apply (extract_refines k ρ1 st srv HI1 Hsr Hnc Hkm). intros ρ2 ds HI2 _.
+      rewrite (rel_n_trees _ _ _ HR).
+      apply (transposer_sem (tuple_of vars) final_tuple_sem (seq 0 n) t Etr); [|exact HI2].
+      intros b Hb. apply in_seq in Hb. lia.
+    - replace (Nat.ltb k (j_max j - 1)) with true in Ej by (symmetry; apply Nat.ltb_lt; lia).
+      destruct Ej as (nss & ne & -> & Eb). inversion Eb; subst ss e.
+      rewrite den_RBlock, execs_app. nb. cbn [Nat.eqb].
+      apply (Hstep k ρ st step HI Hkm Es). intros ρ1 srv HI1 Hsr Hnc.
+      cbn [execs]. nb.
+      apply (extract_refines k ρ1 st srv HI1 Hsr Hnc Hkm). intros ρ2 ds HI2 Hlen.
+      nb. rewrite fail_check_sem with (ds := ds).
+      + apply bind_ext. intros oks. destruct (first_false oks ds); [reflexivity|].
+        apply (IH (S k) nss ne En); [lia|exact HI2].
+      + pose proof (set_all_nth (actives sp k) ds st (rel_actives_nodup sp k) Hlen) as HF.
+        eapply Forall2_impl_in_l; [apply HF|].
+        * intros b Hb. rewrite (inv_len _ _ HI). apply (rel_actives_lt _ _ _ HR k b Hb).
+        * cbn beta. intros b d Hb Hn. rewrite <- Hn. apply (inv_names _ _ HI2).
+          apply (rel_actives_lt _ _ _ HR k b Hb).
+  Qed.
+
+  (* ------------------------------------------------------------------------------------------ *)
+  (* STAGE 4: the thread kinds (sync): builders, spawn, join                                    *)
+  (* ------------------------------------------------------------------------------------------ *)
+
+  Lemma count_active_filter k : forall m b, count_active j k b m = filter (is_active j k) (seq b m).
+  Proof.
+    induction m as [|m IH]; intros b; cbn [count_active seq filter]; [reflexivity|].
+    rewrite IH. reflexivity.
+  Qed.
+  Lemma active_branches_eq k : active_branches j k = actives sp k.
+  Proof. unfold active_branches. rewrite count_active_filter, (rel_actives _ _ _ HR). reflexivity. Qed.
+
+  Definition is_builder (d : dval) : Prop := match d with DBuilder _ => True | _ => False end.
+
+  Lemma thread_builder_leaves i : leaves is_builder (thread_builder i).
+  Proof.
+    unfold thread_builder. constructor. intros cur. destruct (tb_name cur i); constructor. exact I.
+  Qed.
+
+  Lemma Inv_upd_list_temp : forall xs ds ρ st, Inv ρ st -> (forall x, In x xs -> temp_name x) ->
+    Inv (upd_list ρ xs ds) st.
+  Proof.
+    induction xs as [|x xs IH]; intros ds ρ st HI Ht; [exact HI|].
+    destruct ds as [|d ds]; [exact HI|]. cbn [upd_list]. apply IH.
+    - apply Inv_upd_temp; [exact HI|]. apply Ht. left. reflexivity.
+    - intros y Hy. apply Ht. right. exact Hy.
+  Qed.
+
+  Lemma execs_tbs : forall acts ρ, ρ n_tb = Some DTb ->
+    execs (map (fun b => SLet (PIdent (n_j b)) (RCall (RVar n_tb) [RUsize b])) acts) ρ =
+    let! bs := mapM (fun b => thread_builder (Z.of_nat b)) acts in Ret (upd_list ρ (map n_j acts) bs).
+  Proof.
+    induction acts as [|b r IH]; intros ρ Htb; cbn [map execs mapM]; [reflexivity|].
+    rewrite exec_SLet_ident, den_RCall_var, den_RVar, Htb. nb.
+    rewrite dens_cons, den_RUsize, dens_nil. nb. cbn [apply]. nb.
+    apply bind_ext. intros d. nb. rewrite IH.
+    - nb. apply bind_ext. intros ds. nb. reflexivity.
+    - rewrite upd_other; [exact Htb|]. rewrite n_tb_g, n_j_g. apply gname_neq. discriminate.
+  Qed.
+
+  Lemma upd_list_Forall2 : forall xs ds ρ, NoDup xs -> List.length ds = List.length xs ->
+    Forall2 (fun x d => upd_list ρ xs ds x = Some d) xs ds.
+  Proof.
+    induction xs as [|x xs IH]; intros ds ρ Hnd Hl; destruct ds as [|d ds]; try discriminate; [constructor|].
+    inversion Hnd; subst. cbn [upd_list]. constructor.
+    - rewrite upd_list_other by assumption. apply upd_same.
+    - apply IH; auto.
+  Qed.
+
+  Lemma Forall2_combine {A B C} (P : A -> B -> Prop) (Q : B -> C -> Prop) :
+    forall la lb lc, Forall2 P la lb -> Forall2 Q lb lc ->
+    Forall2 (fun a (cb : C * B) => P a (snd cb) /\ Q (snd cb) (fst cb)) la (combine lc lb).
+  Proof.
+    intros la lb lc H. revert lc. induction H; intros lc HQ; inversion HQ; subst; cbn [combine]; constructor; auto.
+  Qed.
+
+  Lemma Forall2_map_l' {A B C} (R : C -> B -> Prop) (f : A -> C) l l' :
+    Forall2 R (map f l) l' -> Forall2 (fun x y => R (f x) y) l l'.
+  Proof.
+    revert l'. induction l as [|x r IH]; intros l' H; inversion H; subst; constructor; auto.
+  Qed.
+
+  (* reading a tuple by index = walking through it *)
+  Lemma mapM_enum_nth {A B} (F : option val -> comp B) : forall (hs : list val) (acts : list A) o pre,
+    List.length pre = o -> List.length hs = List.length acts ->
+    mapM (fun ib : nat * A => F (nth_error (pre ++ hs) (fst ib))) (enum_from o acts) = mapM (fun v => F (Some v)) hs.
+  Proof.
+    induction hs as [|v hs IH]; intros acts o pre Hp Hl; destruct acts as [|a acts]; try discriminate; [reflexivity|].
+    cbn [enum_from mapM fst]. rewrite nth_error_app2 by lia. rewrite Hp, Nat.sub_diag. cbn [nth_error].
+    apply bind_ext. intros y.
+    replace (pre ++ v :: hs) with ((pre ++ [v]) ++ hs) by (rewrite <- app_assoc; reflexivity).
+    rewrite (IH acts (S o) (pre ++ [v])); [reflexivity| |].
+    - rewrite app_length. cbn. lia.
+    - cbn in Hl. lia.
+  Qed.
+
+  Lemma all_vals_length : forall ds vs, all_vals ds = Some vs -> List.length vs = List.length ds.
+  Proof.
+    induction ds as [|d ds IH]; intros vs H; cbn [all_vals] in H.
+    - inversion H. reflexivity.
+    - destruct d; try discriminate. destruct (all_vals ds) as [ws|]; [|discriminate].
+      inversion H; subst. cbn. rewrite (IH ws eq_refl). reflexivity.
+  Qed.
+
+  (* a list of computations that all return plain values *)
+  Lemma mapM_to_val {A B} (f : A -> comp dval) (K : list val -> comp B) : forall l,
+    (forall x, leaves is_DV (f x)) ->
+    bind (mapM f l) (fun ds => match all_vals ds with Some vs => K vs | None => Panic P_ILLTYPED end)
+    = bind (mapM (fun x => bind (f x) to_val) l) K.
+  Proof.
+    intros l Hf. revert K. induction l as [|x r IH]; intros K; cbn [mapM]; [reflexivity|]. nb.
+    eapply bind_ext_leaves; [apply Hf|]. intros d Hd. destruct d as [v| | | | | |]; try contradiction.
+    cbn [to_val]. nb.
+    transitivity (bind (mapM (fun x => bind (f x) to_val) r) (fun vs => K (v :: vs))).
+    - rewrite <- (IH (fun vs => K (v :: vs))). apply bind_ext. intros ds. nb. cbn [all_vals].
+      destruct (all_vals ds); reflexivity.
+    - apply bind_ext. intros ys. reflexivity.
+  Qed.
+
+  Lemma spawn_wrap k b c : is_async cfg = false -> is_spawn cfg && Nat.ltb 1 (active_count j k) = true ->
+    wrap_branch j k b c = RBlock [] (RGlue (RGlue (RVar (n_j b)) "spawn" [RMoveThunk c]) "unwrap" []).
+  Proof.
+    intros Ha Hs. apply andb_prop in Hs. destruct Hs as [Hs Hm].
+    unfold wrap_branch. rewrite Hm, (r_lazy _ _ _ HR), (r_cfg_j _ _ _ HR), Ha, Hs. reflexivity.
+  Qed.
+  Lemma spawn_builders k sr : is_async cfg = false -> is_spawn cfg && Nat.ltb 1 (active_count j k) = true ->
+    thread_builders j k sr =
+    (map (fun b => SLet (PIdent (n_j b)) (RCall (RVar n_tb) [RUsize b])) (actives sp k),
+     [SLet (PIdent sr)
+           (RTuple (map (fun ib : nat * nat => RGlue (RGlue (RField (RVar sr) (fst ib)) "join" []) "unwrap" [])
+                        (enum_from 0 (actives sp k))))]).
+  Proof.
+    intros Ha Hs. apply andb_prop in Hs. destruct Hs as [Hs Hm].
+    unfold thread_builders, indexed_sr. rewrite (r_cfg_j _ _ _ HR), Ha, Hs, Hm, active_branches_eq. cbn [orb negb].
+    destruct (active_count j k) as [|[|c]]; try discriminate. reflexivity.
+  Qed.
+
+  Definition join_unwrap (v : val) : comp dval :=
+    let! r := (match v with VHandle h => std_join h | _ => Panic P_ILLTYPED end) in std_unwrap r.
+
+  Lemma join_unwrap_DV v : leaves is_DV (join_unwrap v).
+  Proof.
+    unfold join_unwrap. destruct v; try apply L_Panic. cbn [std_join bind]. apply L_Vis || apply L_Join. intros r.
+    destruct r; cbn [std_unwrap bind]; constructor. exact I.
+  Qed.
+
+  Lemma step_refines_spawn k ρ st step :
+    is_async cfg = false -> is_spawn cfg && Nat.ltb 1 (active_count j k) = true ->
+    Inv ρ st -> k < j_max j -> gen_step j k vars (n_sr k) = Ok step ->
+    forall A (K : env -> comp A) (K' : dval -> comp A),
+      (forall ρ' srv, Inv ρ' st -> ρ' (n_sr k) = Some srv -> not_clo srv -> K ρ' = K' srv) ->
+      bind (execs step ρ) K = bind (step_result msem dotsem callsem awaitsem sp k st) K'.
+  Proof.
+    intros Ha Hs HI Hk Hg A K K' HK.
+    destruct (gen_step_sync_inv k (n_sr k) step Ha Hg) as (cs & Hcs & ->).
+    rewrite (spawn_builders k _ Ha Hs). cbn [fst snd].
+    apply andb_prop in Hs as Hs'. destruct Hs' as [Hsp Hmulti].
+    unfold step_result. rewrite (r_cfg_sp _ _ _ HR), Ha.
+    rewrite <- (rel_active_count _ _ _ HR), Hs.
+    set (acts := actives sp k) in *.
+    rewrite execs_app, (execs_tbs acts ρ (inv_tb _ _ HI Hsp Ha)). nb.
+    eapply bind_ext_leaves.
+    { apply leaves_and; [apply leaves_mapM_length|apply (leaves_mapM is_builder)].
+      intros b _. apply thread_builder_leaves. }
+    intros bs [Hbl Hbb]. nb.
+    set (ρ1 := upd_list ρ (map n_j acts) bs).
+    assert (HI1 : Inv ρ1 st).
+    { apply Inv_upd_list_temp; [exact HI|]. intros x Hx. apply in_map_iff in Hx. destruct Hx as (b & <- & _). apply temp_j. }
+    rewrite execs_app, execs_step_defs. nb. rewrite (snap_inv ρ1 st HI1).
+    eapply bind_ext_leaves; [apply captures_keys|]. intros cp Hkeys. nb.
+    set (ρ2 := ext_env ρ1 cp).
+    assert (HI2 : Inv ρ2 st) by (apply Inv_ext_env; exact HI1).
+    rewrite execs_app. cbn [execs]. rewrite exec_SLet_ident. nb.
+    (* the tuple of spawned handles *)
+    set (F := fun nb : dval * nat =>
+                match fst nb with
+                | DBuilder name =>
+                    let! h := std_spawn name (fun _ => let! d := chain msem dotsem callsem sp (snap_of sp st) cp k st (snd nb) in to_val d) in
+                    std_unwrap h
+                | _ => Panic P_ILLTYPED
+                end).
+    assert (Hnd : NoDup (map n_j acts)).
+    { apply NoDup_map_inj; [intros a b; apply n_j_inj|apply rel_actives_nodup]. }
+    assert (Hspawn : Forall2 (fun c nb => D c ρ2 = F nb) cs (combine bs acts)).
+    { pose proof (upd_list_Forall2 (map n_j acts) bs ρ Hnd) as Hb.
+      rewrite map_length in Hb. specialize (Hb Hbl). apply Forall2_map_l' in Hb.
+      pose proof (Forall2_combine _ _ _ _ _ Hcs Hb) as Hc.
+      eapply Forall2_impl_in; [exact Hc|]. cbn beta. intros c [bd b] Hin [(c0 & ds & Ec & Hr) Hbd]. cbn [fst snd] in *.
+      assert (Hb_in : In b acts) by (apply in_combine_r in Hin; exact Hin).
+      assert (Hbd_b : is_builder bd).
+      { apply in_combine_l in Hin. rewrite Forall_forall in Hbb. apply Hbb. exact Hin. }
+      destruct bd as [| | | |name| |]; try contradiction.
+      rewrite Ec, (spawn_wrap k b c0 Ha Hs).
+      rewrite den_RBlock. cbn [execs]. nb. rewrite !den_RGlue, den_RVar.
+      unfold ρ2. rewrite ext_env_not_ew by (intros b' e i; rewrite n_j_g, n_ew_g; apply gname_neq; discriminate).
+      fold ρ1. unfold ρ1 at 1. rewrite Hbd. nb.
+      rewrite dens_cons, den_RMoveThunk, !dens_nil. nb. rewrite glue_spawn. unfold F. cbn [fst snd].
+      unfold std_spawn. cbn [bind]. fold ρ2.
+      rewrite (chain_in_step k ρ1 st cp b ds c0 HI1 Hb_in Hkeys Hr).
+      apply Spawn_ext. intros h. nb. rewrite glue_unwrap. reflexivity. }
+    rewrite den_RTuple.
+    assert (Hlen_cs : List.length cs = List.length acts) by (apply (Forall2_length' _ _ _ Hcs)).
+    assert (Hacts2 : 2 <= List.length acts).
+    { unfold acts. rewrite <- (rel_active_count _ _ _ HR). apply Nat.ltb_lt in Hmulti. lia. }
+    assert (Hshape : forall (T : Type) (x : rexpr -> T) (y : T), match cs with [e] => x e | _ => y end = y).
+    { intros. destruct cs as [|c1 [|c2 r]]; cbn in Hlen_cs; try lia; reflexivity. }
+    rewrite Hshape. rewrite dens_mapM, (mapM_Forall2 _ _ _ _ Hspawn). nb.
+    eapply bind_ext_leaves; [apply leaves_mapM_length|]. intros handles Hhl.
+    rewrite combine_length, Hbl, Nat.min_id in Hhl.
+    unfold vals_tuple. destruct (all_vals handles) as [hs|] eqn:Eh; nb; [|reflexivity].
+    pose proof (all_vals_length _ _ Eh) as Hhs. rewrite Hhl in Hhs.
+    (* the joins *)
+    cbn [execs]. rewrite exec_SLet_ident, den_RTuple.
+    assert (Hshape2 : forall (T : Type) (x : rexpr -> T) (y : T),
+               match map (fun ib : nat * nat => RGlue (RGlue (RField (RVar (n_sr k)) (fst ib)) "join" []) "unwrap" [])
+                         (enum_from 0 acts) with [e] => x e | _ => y end = y).
+    { intros. destruct acts as [|a1 [|a2 r]]; cbn in Hacts2; try lia; reflexivity. }
+    rewrite Hshape2. rewrite dens_mapM, mapM_map. nb.
+    set (ρ3 := upd ρ2 (n_sr k) (DV (VTuple hs))).
+    assert (Hju : forall ib : nat * nat,
+               D (RGlue (RGlue (RField (RVar (n_sr k)) (fst ib)) "join" []) "unwrap" []) ρ3
+               = match nth_error ([] ++ hs) (fst ib) with Some v => join_unwrap v | None => Panic P_ILLTYPED end).
+    { intros ib. rewrite !den_RGlue, den_RField, den_RVar. unfold ρ3. rewrite upd_same. nb. cbn [app].
+      destruct (nth_error hs (fst ib)) as [v|]; nb; [|reflexivity].
+      rewrite !dens_nil. nb. unfold join_unwrap.
+      destruct v; try reflexivity. rewrite glue_join. nb. apply bind_ext. intros r. nb. rewrite glue_unwrap. reflexivity. }
+    rewrite (mapM_ext_in _ _ _ (fun ib _ => Hju ib)).
+    rewrite (mapM_enum_nth (fun o => match o with Some v => join_unwrap v | None => Panic P_ILLTYPED end) hs acts 0 []
+                           eq_refl Hhs).
+    rewrite (mapM_to_val join_unwrap _ hs join_unwrap_DV).
+    assert (HG : forall v, bind (join_unwrap v) to_val =
+                           match v with
+                           | VHandle i => let! r := std_join i in let! u := std_unwrap r in to_val u
+                           | _ => Panic P_ILLTYPED end).
+    { intros v. unfold join_unwrap. destruct v; nb; reflexivity. }
+    rewrite (mapM_ext_in _ _ _ (fun v _ => HG v)).
+    apply bind_ext. intros vs. nb.
+    apply HK; [|apply upd_same|exact I].
+    apply Inv_upd_temp; [|apply temp_sr]. apply Inv_upd_temp; [exact HI2|apply temp_sr].
+  Qed.
+
+  (* every sync kind *)
+  Theorem step_sync : is_async cfg = false -> step_hyp.
+  Proof.
+    intros Ha k ρ st step HI Hk Hg A K K' HK.
+    destruct (is_spawn cfg && Nat.ltb 1 (active_count j k)) eqn:Hs.
+    - eapply step_refines_spawn; eauto.
+    - eapply step_refines_plain; eauto.
   Qed.
 End Steps.
